@@ -57,6 +57,7 @@ FaultVerdict(ln) ==
      (IF IsOk(ln.resp) /\ ~(ln.resp.status = exp.resp.status /\ SameUpToRetriedGens(db0, exp.s, fin))
       THEN {"C17_SuccessNotExactlyOnce"} \cup {"differs:" \o x : x \in Differs(NoGens(exp.s), NoGens(fin))} ELSE {})
 \cup (IF IsErr(ln.resp) /\ fin # db0 THEN {"C17_ErrorWithEffect"} ELSE {})
+\cup (IF IsErr(ln.resp) /\ fin # db0 /\ DropIdle(fin) = DropIdle(db0) THEN {"residue:idle-consumer"} ELSE {})
 \cup (IF IsErr(ln.resp) /\ ~ln.wellformed THEN {"C17_ErrorNotWellFormed"} ELSE {})
 \cup (IF ln.resp.status = 599 THEN {"C17_EscapedException"} ELSE {})
 \cup (IF IsOk(ln.resp) /\ ~ln.std_ok THEN {"C17_SyncIncomplete"} ELSE {})
